@@ -1,5 +1,6 @@
 import NavisModel.Drv.C09
 import NavisModel.Drv.Forest
+import NavisModel.Drv.C20
 /-! `navisdrv`: one request per line on stdin (`<prop>.<cmd> <payload>`), one answer per line on stdout. -/
 open Navis
 
@@ -7,6 +8,7 @@ def handle (head rest : String) : Option String :=
   match head.splitOn "." with
   | ["c09", cmd] => Drv.C09.run cmd rest
   | ["f", cmd] => Drv.Forest.run cmd rest
+  | ["c20", cmd] => Drv.C20.run cmd rest
   | ["ping"] => some "pong"
   | _ => none
 
